@@ -106,3 +106,11 @@ func (db *DB) VerifLockState(t LockType) RWMutexState {
 	}
 	return RWMutexStateUnlocked
 }
+
+// VerifHaltLockID returns the id of the local halt lock (0 if none).
+func (db *DB) VerifHaltLockID() int64 {
+	if curr := db.haltLockAndGuard.Load().(*haltLockAndGuard); curr != nil {
+		return curr.haltLock.ID
+	}
+	return 0
+}
